@@ -624,8 +624,8 @@ func (p *C15) Check(sc *scen.Scenario, run *orch.Run, env *orch.Env) []orch.Viol
 					how = "derived.Handle"
 				}
 				checkRecord(how, sev, c15Want(run, op.Lvl), c15Msg(op), h, op.Args, op.T)
-			} else {
-				// non-standard level: it must not become a terminating severity
+			} else if !worldTerminatingSlogLevels(run)[op.Lvl] {
+				// a level that is neither standard nor one of the explicit Fatal/Panic constants: it must not become a terminating severity
 				for _, w := range o.Writes {
 					if lv, ok := levelField(w.P); ok && (lv == "fatal" || lv == "panic") {
 						add("C15.terminating", "Handle", "Handle of a record with log/slog level %d is emitted at terminating severity %q", op.Lvl, lv)
@@ -670,7 +670,7 @@ func (p *C15) Check(sc *scen.Scenario, run *orch.Run, env *orch.Env) []orch.Viol
 			}
 			if sev, std := c15StdSev[op.Lvl]; std {
 				checkRecord("Entry.Log", sev, c15Want(run, op.Lvl), "e"+op.Tok, nil, nil, nil)
-			} else if op.Lvl != 16 && op.Lvl != 17 {
+			} else if !worldTerminatingSlogLevels(run)[op.Lvl] {
 				for _, w := range o.Writes {
 					if lv, ok := levelField(w.P); ok && (lv == "fatal" || lv == "panic") {
 						add("C15.terminating", "Entry.Log", "Entry.Log with log/slog level %d is emitted at terminating severity %q (it would exit or panic in a production process)", op.Lvl, lv)
